@@ -25,6 +25,8 @@ macro_rules! registry {
             "C13" => dispatch!($action, props::c13::C13, $ctx, $path),
             "C19" => dispatch!($action, props::c19::C19, $ctx, $path),
             "C20" => dispatch!($action, props::c20::C20, $ctx, $path),
+            "C15" => dispatch!($action, props::c15::C15, $ctx, $path),
+            "C41" => dispatch!($action, props::c41::C41, $ctx, $path),
             _ => {
                 eprintln!("unknown property {}", $id);
                 2
